@@ -9,6 +9,12 @@
 (* Fields of a record (produced by harness/drivers/c17.py):                *)
 (*  api, gk, rk, lst   the call: decorator (or decorator stack), grid kind,*)
 (*                     result kind, single result / list of 2              *)
+(*  cls                concrete class of the grid object: "base", "uniform"  *)
+(*                     (Grid2DIrregularUniform), "sub" (a subclass defined *)
+(*                     by the harness); judged like the base kind          *)
+(*  kinds              for every element of the result the library         *)
+(*                     container class it is an instance of (first such    *)
+(*                     class in its MRO), else its own class name          *)
 (*  h, w, u            input mask (unmasked linear indices, ascending);    *)
 (*                     irregular sets and plain arrays: h = 1, w = n       *)
 (*  calls              how often the body of the user function ran         *)
@@ -175,7 +181,7 @@ TransformClause(r) == Cl("frame-changed-exactly-once-unless-caller-did", r.tcoun
 \* ---- per call --------------------------------------------------------------------
 Clauses(r) ==
     IF r.api = "derive" THEN (IF r.raised THEN << Cl("call-returns", FALSE) >> ELSE DeriveClauses(r))
-    ELSE IF ~ InDomain(r.api, r.gk, r.rk) THEN << Cl("call-in-domain", FALSE) >>
+    ELSE IF ~ (InDomain(r.api, r.gk, r.rk) /\ r.cls \in ClassesOf(r.gk)) THEN << Cl("call-in-domain", FALSE) >>
     ELSE IF r.raised THEN << Cl("call-returns", FALSE) >>
     ELSE << GridUnchanged(r) >> \o
     (CASE r.api \in {"to_array", "to_grid", "to_vector_yx"} /\ r.gk \in {"g2d", "irr"} ->
@@ -205,7 +211,7 @@ Sig(r) ==
     IF FailedNames(r) = {"coordinate-at-the-centre-moved-to-exactly-the-minimum"} THEN "PointAtCentre"
     ELSE IF FailedNames(r) = {"coordinate-a-hair-from-the-centre-moved-along-its-ray-to-exactly-the-minimum"} THEN "PointNearCentre"
     ELSE IF FailedNames(r) = {"input-grid-unchanged"} THEN "InputGridOverwritten"
-    ELSE r.api \o "/" \o r.gk
+    ELSE r.api \o "/" \o r.gk \o (IF r.cls = "base" THEN "" ELSE ":" \o r.cls)
 
 Want(r) ==
     IF r.api = "derive" THEN (IF r.raised \/ ~ OpsOk(r) THEN << >>
